@@ -90,8 +90,8 @@ seeded changes and which check catches which in §11.
     relational statements that compare runs on *different* inputs through more than the paragraph structure.
   C09's and C08's relational clauses, by contrast, are theorems over `wrap`'s functional postcondition (U11, §2.9), and C18's two
   corollaries are theorems over `dedent`'s (and `indent`'s) postconditions (U9, §2.9).
-* **Robustness of the machinery** (§8, §11): 178 seeded property-breaking changes that compile and pass the upstream suite
-  (5 reverted fixes + 173 from independent sub-agents in thirteen waves) are all reported; 25 + 12 behaviour-preserving refactors, 16 small edits and 137 renames of locals
+* **Robustness of the machinery** (§8, §11): 182 seeded property-breaking changes that compile and pass the upstream suite
+  (5 reverted fixes + 177 from independent sub-agents in fourteen waves) are all reported; 25 + 12 behaviour-preserving refactors, 16 small edits and 137 renames of locals
   raise no alarm; every unit verifies under 8 different SMT seeds; the unchanged tree passes all 20 checks in both tiers.
 """)
 w(s1.rstrip()+"\n")
@@ -459,8 +459,8 @@ the property states.
 
 ## 11. Seeded changes and what catches them
 
-`seeded/` holds 178 changes that compile, pass the upstream suite in both feature sets, and break a property: the 5 reverted
-fixes and 173 produced by independent sub-agents given **only** the property text and a scratch worktree:
+`seeded/` holds 182 changes that compile, pass the upstream suite in both feature sets, and break a property: the 5 reverted
+fixes and 177 produced by independent sub-agents given **only** the property text and a scratch worktree:
 
 * waves 1–2 (40): two per property;
 * wave 3 (20): cooperating edits, indirect helpers, wrong fast paths;
@@ -482,13 +482,16 @@ fixes and 173 produced by independent sub-agents given **only** the property tex
   miss, see the table;
 * wave 13 (3): aimed at what was proved last (C01's trailing-space chain outside `wrap.rs`, the `find_words` dispatcher, `indent` on unusual
   line structures) — all reported as the checks stood. A fourth agent, asked to break C18's corollaries, produced exactly the patch that
-  reverts fix F4 (seed `revert_F4`); it is not counted twice.
+  reverts fix F4 (seed `revert_F4`); it is not counted twice;
+* wave 14 (4): changes dressed as *performance optimisations* (substring search instead of per-character decoding in `display_width`, a byte-window
+  scan in the hyphen splitter, a cached blank tail in `wrap_columns`, back-to-front filling of the optimal-fit result keyed to a
+  disabled line counter) for C10, C12, C20, C06 — all reported as the checks stood (the last one also by U23's `get` postcondition).
 
 Each change was confirmed by `tools/seedverify.sh` (patch applies; suite passes in both feature sets; its demonstration fails with
 the patch and passes without). `tools/seedtest.py` applies each to `/repo`, runs the checks of the properties it breaks, and undoes
 it; `seeded/RESULTS.json` is its output and **`seeded/RESULTS.md` the full table** (seed, property, files changed, Verus obligations
-failed, BEC contracts failed, undecided units, verdict). After every change to the checks the whole set is run again (last: 202 of
-202 (change, property) pairs reported; `tools/seedpar.py` does the same on scratch copies, several at a time, without touching `/repo`).
+failed, BEC contracts failed, undecided units, verdict). After every change to the checks the whole set is run again (last: 206 of
+206 (change, property) pairs reported; `tools/seedpar.py` does the same on scratch copies, several at a time, without touching `/repo`).
 
 Misses on first contact (and one relabelled seed) and what was strengthened (never by weakening a check):
 
@@ -513,7 +516,7 @@ Misses on first contact (and one relabelled seed) and what was strengthened (nev
 | 12 | w12_C15_A (`impl From<&Options>` rebuilt through the setters, forgetting `line_ending`: `fill(t, &options)` silently uses LF) | U22 proves that conversion copies every option and rejects the change — but U22 was only part of the checks of C02, C04, C08, C09; the bounded contracts pass `Options` by value, which bypasses the conversion | U22 is now part of the check of every property whose entry point takes `Into<Options>` (C01 C05 C13 C15 C16 C20 as well); the C15 / C16 bounded contracts pass `&Options` |
 
 **Verus on its own** (`tools/seedverus.py`, `seeded/VERUS.json`: each change applied to a scratch copy, only the Verus units run):
-a Verus obligation rejects 71 of the 178 changes (1 of the 20 disguised as refactors); the others end *undecided* in Verus (a new construct without a spec, a
+a Verus obligation rejects 72 of the 182 changes (1 of the 20 disguised as refactors); the others end *undecided* in Verus (a new construct without a spec, a
 loop rewritten so that a rewrite rule no longer applies, a lost anchor) or touch code whose contract does not see them
 (`ch_width`'s table — decided by the exhaustive scalar enumeration and Kani K1). Three things raised that share (from 29 to 42 of the first 77 changes):
 (i) specs for the std functions such edits typically reach for (`str::trim_end` / `trim_start` / `trim`, `char::is_ascii`,
